@@ -64,12 +64,27 @@ def main():
         res['tests_passed'] = int(m.group(2)) if m else None
         if not ok or not m or int(m.group(2)) < 378:
             raise RuntimeError(f'existing tests do not all pass ({m.group(0) if m else "no summary"})')
-        shutil.copy(demo, f'{wt}/tests/seed_demo.rs')
-        ok, _ = step('demo-with-change', 'cargo test --offline --all-features --test seed_demo 2>&1 | tail -30', False)
+        demo_sh = os.path.abspath(os.path.join(src, 'demo.sh'))
+        if os.path.exists(demo_sh):
+            # execution-trace demonstration (C01): demo.rs is an example program, demo.sh compares executed
+            # instruction / branch counts under valgrind for different secrets (exit 0 iff identical)
+            os.makedirs(f'{wt}/examples', exist_ok=True)
+            shutil.copy(demo, f'{wt}/examples/seed_demo.rs')
+            shutil.copy(demo_sh, f'{wt}/demo.sh')
+            demo_cmd = 'bash demo.sh 2>&1 | tail -30'
+        else:
+            shutil.copy(demo, f'{wt}/tests/seed_demo.rs')
+            demo_cmd = 'cargo test --offline --all-features --test seed_demo 2>&1 | tail -30'
+            try:
+                if json.load(open(os.path.join(src, 'meta.json'))).get('demo_profile') == 'release':
+                    demo_cmd = 'cargo test --offline --release --all-features --test seed_demo 2>&1 | tail -30'
+            except Exception:
+                pass
+        ok, _ = step('demo-with-change', demo_cmd, False)
         if not ok:
             raise RuntimeError('demo does not fail with the change')
         sh(f'git -C {wt} apply -R {patch}')
-        ok, _ = step('demo-without-change', 'cargo test --offline --all-features --test seed_demo 2>&1 | tail -30', True)
+        ok, _ = step('demo-without-change', demo_cmd, True)
         if not ok:
             raise RuntimeError('demo does not pass without the change')
     except Exception as e:  # noqa
@@ -82,6 +97,8 @@ def main():
         os.makedirs(dst, exist_ok=True)
         shutil.copy(patch, f'{dst}/patch.diff')
         shutil.copy(demo, f'{dst}/demo.rs')
+        if os.path.exists(os.path.join(src, 'demo.sh')):
+            shutil.copy(os.path.join(src, 'demo.sh'), f'{dst}/demo.sh')
         meta = {}
         mp = os.path.join(src, 'meta.json')
         if os.path.exists(mp):
